@@ -237,11 +237,11 @@ Section Strings.
 
   Lemma fuel_after_consume st f : is_done st = false -> (length (s_rest st) <= S f)%nat ->
     (length (s_rest (consume_rune st)) <= f)%nat.
-  Proof. intros Hd Hf. pose proof (steps_length _ _ _ (steps_consume st Hd)). lia. Qed.
+  Proof. intros Hd Hf. pose proof (consume_length st Hd). lia. Qed.
 
   Lemma consume_shrinks st : is_done st = false ->
     (length (s_rest (consume_rune st)) < length (s_rest st))%nat.
-  Proof. intro Hd. pose proof (steps_length _ _ _ (steps_consume st Hd)). lia. Qed.
+  Proof. intro Hd. pose proof (consume_length st Hd). lia. Qed.
 
   Lemma quoted_loop_sync : forall fuel n L st value esc st' value' tm,
     sync n L st -> (length (s_rest st) <= fuel)%nat ->
